@@ -1,4 +1,5 @@
 CONSTANTS
+  EmptyYields = FALSE
   PinnedEnv = TRUE
   Accumulate = FALSE
   PinnedVars = FALSE
